@@ -102,7 +102,7 @@ func (w *World) runPair(n int, c Cookie, r *rand.Rand) []Line {
 				o.After = Project(s, hosts[i], time.Now())
 				o.After.Email = "nomatch"
 			} else {
-				o.After = Cookie{Kind: "garbage", Life: -1, Ref: -1, Val: -1, Grace: -1, Email: "empty", Tok: "none"}
+				o.After = garbageCookie
 			}
 		}
 		ai := a
@@ -136,7 +136,7 @@ func RunPairs(out string, seed int64, n, workers int) (*Summary, error) {
 			defer w.Close()
 			for j := wk; j < n; j += workers {
 				r := rand.New(rand.NewSource(seed*104729 + int64(j)))
-				c := Cookie{Kind: "sess", SlugOk: true, HostOk: true, Life: 3, Ref: 2, Val: -1, Grace: -1, Email: "match", RT: true, Tok: "old"}
+				c := Cookie{Kind: "sess", SlugOk: true, HostOk: true, Life: 3, Ref: 2, Val: -1, Grace: -1, Email: "match", RT: true, Tok: "old", Grp: "in"}
 				if r.Intn(2) == 0 {
 					c.Ref = -1
 					c.Val = []int{-1, 0, 1}[r.Intn(3)]
